@@ -287,6 +287,17 @@ impl<'a> Splitter<'a> {
                         (dir.join(format!("cfgdir{}", n)).join(&cfgname), format!("cfgdir{}/{}", n, cfgname), format!("../ipcfg{}", n))
                     };
                     self.files.push(FileSpec { nodes: vec![Node::Comment("search directories".into()), Node::IncludePath(rel)], disk: cfg_disk, rule: "includer-dir", form: "name" });
+                    // the list may itself be reached through one or two files that do nothing but include
+                    // the next one (all of them next to the includer, so the name as written stays valid)
+                    let (mut inner_written, mut inner_idx) = (cfg_written, cfg_idx);
+                    for w in 0..self.rng.below(3) {
+                        let wname = format!("cfgw{}_{}_{}.inc", self.tag, n, w);
+                        let widx = self.files.len();
+                        self.files.push(FileSpec { nodes: vec![Node::Comment("hands on".into()), Node::Include { path: inner_written, file: inner_idx }], disk: dir.join(&wname), rule: "includer-dir", form: "name" });
+                        inner_written = wname;
+                        inner_idx = widx;
+                    }
+                    let (cfg_written, cfg_idx) = (inner_written, inner_idx);
                     pre.push(Node::Include { path: cfg_written, file: cfg_idx });
                     (dir.join(format!("ipcfg{}", n)).join(&decorated), decorated.clone())
                 }
